@@ -294,6 +294,14 @@ class WSServer:
             await self.conn.send(text)
         self.lt.run(go())
 
+    def burst(self, texts, close):
+        async def go():
+            for t in texts:
+                await self.conn.send(t)
+            if close:
+                await self.conn.close()
+        self.lt.run(go())
+
     def wait_received(self, n, timeout=5.0):
         t0 = time.time()
         with self.cond:
@@ -389,6 +397,25 @@ def run_ws(steps, stats, report):
                     report('ws/push/not-delivered/' + ('falsy' if falsy else type(value).__name__), dict(case, at=i),
                            expected=f'.ws.m called with {step[1][:60]}', observed='no call within 2 s')
                     return
+            elif kind == 'burst':
+                # several messages back to back, optionally followed at once by the server closing the connection:
+                # everything sent before the close must still reach .ws.m, in order
+                values = [json.loads(t) for t in step[1]]
+                for v in values:
+                    expected_log.append((f'm{tagv}', json_canon(v)))
+                stats.case(('ws', repr(steps[:i + 1])), nontrivial=True,
+                           classes=['ws', 'burst'] + (['burst then close'] if step[2] else []), sample={"burst": list(step[1])[:4], "close": step[2]})
+                srv.burst(list(step[1]), step[2])
+                t0 = time.time()
+                with _G['wscond']:
+                    while len(log) < len(expected_log) and time.time() - t0 < 3:
+                        _G['wscond'].wait(0.05)
+                if len(log) < len(expected_log):
+                    report('ws/burst/not-delivered/' + ('then-close' if step[2] else 'open'), dict(case, at=i),
+                           expected=f'{len(expected_log)} calls of .ws.m', observed=f'{len(log)} within 3 s')
+                    return
+                if step[2]:
+                    break
             elif kind == 'send':
                 text = step[1]
                 want = json.loads(step[2])
@@ -460,6 +487,9 @@ def ws_cases(draw):
                 steps.append(('send', render(v), json.dumps(canon_json(v)), 'literal'))
         else:
             steps.append(('redef',))
+    if draw(st.sampled_from([False, False, True])):
+        texts = tuple(json.dumps(draw(json_values())) for _ in range(draw(st.integers(2, 6))))
+        steps.append(('burst', texts, draw(st.booleans())))
     return steps
 
 
